@@ -63,7 +63,7 @@ def gen_grammars(prop, tier, n, profile):
         st = gg.grammar_stream(rnd, want_lr1=0.9)
         while len(out) < n:
             g, tb = next(st)
-            add(gg.decorate(g, rnd))
+            add(gg.decorate(g, rnd, regexes=(0.35 if rnd.random() < 0.5 else 0)))
     elif profile == 'values':     # C14: decorated + error rules + move-only instantiations
         for g in gg.err_core(): add(gg.decorate(g, rnd, strings=0))
         st = gg.grammar_stream(rnd, want_lr1=0.9)
@@ -71,7 +71,7 @@ def gen_grammars(prop, tier, n, profile):
             g, tb = next(st)
             x = rnd.random()
             if x < 0.3: g = gg.add_error_rules(g, rnd)
-            g = gg.decorate(g, rnd, typed=0.4)
+            g = gg.decorate(g, rnd, typed=0.4, regexes=(0.3 if rnd.random() < 0.4 else 0))
             if rnd.random() < 0.3:
                 g.vtypes = ['M'] * len(g.nts); g.tvtype = 'M'
                 g.rules = [gg.Rule(r.lhs, r.rhs, r.prec, 'f') for r in g.rules]
@@ -85,7 +85,7 @@ def gen_grammars(prop, tier, n, profile):
         while len(out) < n:
             g, tb = next(st)
             if rnd.random() < 0.45: g = gg.add_error_rules(g, rnd)
-            g = gg.decorate(g, rnd, vtypes=False, dflt=0, strings=0.5)
+            g = gg.decorate(g, rnd, vtypes=False, dflt=0, strings=0.5, regexes=(0.4 if rnd.random() < 0.5 else 0))
             if rnd.random() < 0.6: g = multiline_terms(g, rnd)
             if rnd.random() < 0.25: g = newline_term(g, rnd)
             if gg.classify(ref_lr1.build(g)) in ('rr', 'acc'): continue
@@ -140,7 +140,7 @@ def gen_grammars(prop, tier, n, profile):
         while len(out) < n:
             g, tb = next(st)
             if rnd.random() < 0.25: g = gg.add_error_rules(g, rnd)
-            if rnd.random() < 0.5: g = gg.decorate(g, rnd)
+            if rnd.random() < 0.5: g = gg.decorate(g, rnd, regexes=(0.35 if rnd.random() < 0.5 else 0))
             if gg.classify(ref_lr1.build(g)) in ('rr', 'acc'): continue
             add(g)
     return out[:max(n, 0)] if profile != 'plain' else out
